@@ -248,6 +248,7 @@ static void jarr(FILE *o, char **a) {
   if (a) for (char **p = a; *p; p++) { if (p != a) fputc(',', o); js(o, *p); }
   fputc(']', o);
 }
+static void jdoublebits(FILE *o, double d);
 static void dump_group(FILE *o, econf_file *kf, const char *g, int ext) {
   size_t n = 0; char **keys = NULL;
   econf_err e = econf_getKeys(kf, g, &n, &keys);
@@ -271,6 +272,16 @@ static void dump_group(FILE *o, econf_file *kf, const char *g, int ext) {
           fputs(",\"vals\":", o); jarr(o, x->values);
           econf_freeExtValue(x);
         }
+      }
+      if (ext == 2) {      /* what the typed getters answer for this key: part of "what a later query returns" (C10) */
+        uint32_t u = 0; uint64_t U = 0; int32_t i32 = 0; int64_t i64 = 0; double dd = 0; float ff = 0; bool bb = false;
+        econf_err t1 = econf_getUIntValue(kf, g, keys[i], &u), t2 = econf_getUInt64Value(kf, g, keys[i], &U);
+        econf_err t3 = econf_getIntValue(kf, g, keys[i], &i32), t4 = econf_getInt64Value(kf, g, keys[i], &i64);
+        econf_err t5 = econf_getDoubleValue(kf, g, keys[i], &dd), t6 = econf_getFloatValue(kf, g, keys[i], &ff), t7 = econf_getBoolValue(kf, g, keys[i], &bb);
+        fprintf(o, ",\"ty\":[\"%s\",%" PRIu32 ",\"%s\",%" PRIu64 ",\"%s\",%" PRId32 ",\"%s\",%" PRId64 ",\"%s\",", ename(t1), t1 ? 0 : u, ename(t2), t2 ? 0 : U, ename(t3), t3 ? 0 : i32, ename(t4), t4 ? 0 : i64, ename(t5));
+        if (t5) fputs("0", o); else jdoublebits(o, dd);
+        fprintf(o, ",\"%s\",", ename(t6)); if (t6) fputs("0", o); else { double f2 = ff; jdoublebits(o, f2); }
+        fprintf(o, ",\"%s\",%d]", ename(t7), t7 ? 0 : (int)bb);
       }
       fputc('}', o);
     }
@@ -437,9 +448,9 @@ static int run_cmd(struct ctx *c, char **t, int nt) {
     fprintf(o, "{\"op\":\"freenull\",\"ret_null\":%s}\n", (r == NULL && a == NULL) ? "true" : "false"); return 0; }
 
   /* ----- listings ----- */
-  if (!strcmp(op, "dump") || !strcmp(op, "dumpx")) { int h = HND(1);
+  if (!strcmp(op, "dump") || !strcmp(op, "dumpx") || !strcmp(op, "dumpt")) { int h = HND(1);
     fprintf(o, "{\"op\":\"dump\",\"h\":%d,\"st\":", h);
-    if (c->H[h]) dump_obj(o, c->H[h], op[4] == 'x'); else fputs("null", o);
+    if (c->H[h]) dump_obj(o, c->H[h], op[4] == 'x' ? 1 : op[4] == 't' ? 2 : 0); else fputs("null", o);
     fputs("}\n", o); return 0; }
   if (!strcmp(op, "groups")) { int h = HND(1); size_t n = 0; char **g = NULL; e = econf_getGroups(c->H[h], &n, &g);
     fprintf(o, "{\"op\":\"groups\",\"h\":%d", h); jrc(o, e); fputs(",\"out\":", o); jarr(o, e ? NULL : g); fprintf(o, ",\"n\":%zu}\n", e ? 0 : n);
